@@ -8,6 +8,8 @@ CONSTANTS
   InitBank = "3"
   MaxLen = 5
   Defects = {}
+  Foreign = {}
+  BankAmts = {}
 INVARIANT MInv_P
 PROPERTY MStep_P
 VIEW View
